@@ -117,6 +117,9 @@ def projects(draw, max_steps=9, allow_always=True, allow_clash=False):
             if kind == 'shlib' and draw(st.integers(0, 2)) == 0:
                 # real file + soname link + link-time name
                 step['versioned'] = True
+            if len(raw) >= 2 and draw(st.integers(0, 2)) == 0:
+                # prerequisites of every object of the target
+                step['cextra'] = pick(file_refs('hd'), 1, 2)
             # explicitly passed (generated) headers: includes=[...]
             if draw(st.integers(0, 2)) > 0:
                 step['hdrs'] = pick(file_refs('H'), 1, 2)
@@ -277,6 +280,7 @@ def reference_graph(model):
         elif kind in ('exe', 'slib', 'shlib'):
             objs = set()
             pch = set()
+            cextra = {ref_file(model, r) for r in st_.get('cextra', [])}
             if st_.get('pchname'):
                 # documented naming: <header>.gch in the build directory
                 o = st_['pchname'] + '.gch'
@@ -292,7 +296,8 @@ def reference_graph(model):
                 else:
                     o = implicit_object(st_, f)
                     g.append({'key': 'out:' + o, 'sid': st_['id'],
-                              'inputs': {f} | hdrs | pch, 'outputs': [B + o],
+                              'inputs': {f} | hdrs | pch | cextra,
+                              'outputs': [B + o],
                               'phony': False, 'always': False, 'runs': True})
                     objs.add(B + o)
             byid = step_by_id(model)
@@ -490,6 +495,9 @@ def script(model):
                 _ref_expr(model, r) for r in st_['hdrs']))
         if st_.get('pchname'):
             extra += ', pch={!r}'.format(st_['pchname'])
+        if st_.get('cextra'):
+            extra += ', extra_compile_deps=[{}]'.format(', '.join(
+                _ref_expr(model, r) for r in st_['cextra']))
         if kind == 'obj':
             L.append('{} = object_file(file={}{})'.format(
                 v, _ref_expr(model, st_['files'][0]), extra))
@@ -617,6 +625,7 @@ def canonical(model):
                     len(st_['extra']), len(st_['outs']), st_['always'],
                     len(st_.get('hdrs', [])), bool(st_.get('pchname')),
                     st_.get('mode'), bool(st_.get('versioned')),
+                    len(st_.get('cextra', [])),
                     sorted(r[0] if r[0] == 'src' else
                            'k' + str(step_by_id(model)[r[1]]['kind'])
                            for r in st_['files'] + st_['extra'])])
